@@ -158,6 +158,12 @@ impl<T> Executor<T> {
                 lemma_slab_values(active_tasks, vals_of(active_tasks), k);
             }
         }
+//@ alt
+//@ loop <<while>>
+            // (alternative overlay for a body WITHOUT the wake loop -- e.g. the table is just dropped: same contract, so
+            // draining the queue before every parked task has been woken is reported instead of being undecided)
+            invariant may_recv(&self.state.incoming),
+            ensures w_empty(&self.state.incoming) || w_disconnected(&self.state.incoming),
 //@ endslice
 }
 
